@@ -25,7 +25,7 @@ def run(tier, seed, replay=None):
     from splipy.utils import sections
     rng = random.Random(seed)
     tol = C.fr(state.knot_tolerance)
-    reps = 40 if tier == 'quick' else 500
+    reps = 90 if tier == 'quick' else 500
     dist = {'op': {}, 'pardim': {}, 'rational': {}, 'selector': {}}
     evals = 0
     nontriv = set()
